@@ -39,7 +39,7 @@ def function(draw, idx):
         p["name"] = "p%dx%d" % (idx, j)  # unique across the module: generated TypedDict class names derive from them
     f["anno"] = draw(st.sampled_from([False, False, True]))
     f["flavour"] = draw(st.sampled_from(["plain", "plain", "gen", "coro"])) if kind in FLAVOUR_OK else "plain"
-    f["rebind"] = draw(st.sampled_from(["no", "no", "rebind", "del"]))
+    f["rebind"] = draw(st.sampled_from(["no", "no", "rebind", "del", "mutate"]))
     f["callee"] = draw(st.one_of(st.none(), st.integers(0, idx - 1))) if idx > 0 else None
     f["callee_args"] = draw(st.lists(st.sampled_from(ARGSRC + ["@p"]), max_size=3))
     f["catch"] = draw(st.booleans())
@@ -235,11 +235,16 @@ def render(prog):
                     B.append(f"{ind}yield {yv}")
                 if f["rebind"] == "rebind" and first:
                     B.append(f"{ind}{first} = ('rebound', {first})")
+                if f["rebind"] == "mutate" and first:
+                    B.append(f"{ind}S.mutate({first})")
             if not f["yields"]:
                 B.append(f"{ind}if False:")
                 B.append(f"{ind}    yield 0")
         elif f["rebind"] == "rebind" and first and f["flavour"] == "plain":
             B.append(f"{ind}{first} = ('rebound', {first})")
+        elif f["rebind"] == "mutate" and first and f["flavour"] == "plain":
+            # the argument object is changed in place (and possibly handed back): its type at the exit is not its type at the call
+            B.append(f"{ind}S.mutate({first})")
         if f["flavour"] == "coro":
             for i in range(f["awaits"]):
                 B.append(f"{ind}await S.Suspend({i})")
